@@ -866,7 +866,13 @@ func c16BlockNeighbours(c *Ctx, r *Rng) {
 		rr := r.Fork(uint64(i))
 		types := []string{"number", "string", "People", "People[]", "table<string, People>", "fun(a: number): string", "number | string", "boolean"}
 		nf := rr.Range(3, 5)
-		lines := []string{"---@class People", "---@field pname string", "local People = {}", "", "---@class Blk"}
+		lines := []string{"---@class People", "---@field pname string", "local People = {}", ""}
+		// half of the files declare a further class in the same comment block, directly above Blk
+		adj := rr.Fork(0x61646a).Bool()
+		if adj {
+			lines = append(lines, "---@class AdjFirst", "---@field adjf number")
+		}
+		lines = append(lines, "---@class Blk")
 		fieldLine := map[int]int{}
 		for k := 0; k < nf; k++ {
 			fieldLine[k] = len(lines)
@@ -879,6 +885,11 @@ func c16BlockNeighbours(c *Ctx, r *Rng) {
 			idx       int
 		}
 		var probes []probe
+		if adj {
+			lines = append(lines, "---@type AdjFirst", "local adjv = {}")
+			probes = append(probes, probe{len(lines), 12, "field adjf of the class declared first in the block", -1})
+			lines = append(lines, "print(adjv.adjf)")
+		}
 		for k := 0; k < nf; k++ {
 			probes = append(probes, probe{len(lines), 10, fmt.Sprintf("field f%d", k), k})
 			lines = append(lines, fmt.Sprintf("print(bv.f%d)", k))
@@ -932,12 +943,24 @@ func c16BlockNeighbours(c *Ctx, r *Rng) {
 			return out, byLine, true
 		}
 		base := strings.Join(lines, "\n") + "\n"
-		bh, _, ok := observe(base, fmt.Sprintf("c16b%d", i))
+		bh, b18, ok := observe(base, fmt.Sprintf("c16b%d", i))
 		if !ok {
 			c.Inconclusive("server failed on an annotation file (C01's business)")
 			return
 		}
 		c.Eval(1)
+		// every annotation line of this file conforms to the documented syntax and every type it names is declared
+		for l, ms := range b18 {
+			c.Report("conformant-block-warned", fmt.Sprintf("a file of conformant annotation blocks gets %q on line %d (%q)", ms[0], l, lines[l]), map[string]interface{}{"file": base})
+		}
+		if adj {
+			c.Count("blocks_with_two_classes", 1)
+			for pi, p := range probes {
+				if p.idx == -1 && !strings.Contains(bh[pi], "number") {
+					c.Report("first-class-of-a-block-not-understood", fmt.Sprintf("%s is understood as %q", p.what, truncate(bh[pi], 100)), map[string]interface{}{"file": base})
+				}
+			}
+		}
 		// placement: what a block of conformant lines declares does not depend on the code line directly above it (none,
 		// a statement, a statement with a trailing comment)
 		{
